@@ -31,6 +31,9 @@ pub enum Place {
     /// `T ::= Nn-Parent (n0..n5)`: named numbers of a *referenced* INTEGER type, while two other
     /// types (sorting before and after) declare the same identifiers with other numbers
     NamedViaRef,
+    /// named numbers of an INTEGER written in place as a SEQUENCE component,
+    /// `T ::= SEQUENCE { f INTEGER { n0(0), n5(5) } (n0..n5) }`, next to the same decoy types
+    NamedOnComponent,
 }
 
 #[derive(Clone, Debug, PartialEq, Eq, Hash, serde::Serialize, serde::Deserialize)]
@@ -45,6 +48,10 @@ pub struct Case {
     /// `T ::= SEQUENCE { f Parent-Int (expr) }`, instead of a type assignment
     #[serde(default)]
     pub ref_component: bool,
+    /// size hosts: every operand is a SIZE element of its own, `(SIZE (1) | SIZE (5))`, instead
+    /// of one SIZE around the whole element set (the same set of sizes)
+    #[serde(default)]
+    pub split_size: bool,
 }
 
 const PARENT_LO: i128 = -1;
@@ -163,6 +170,20 @@ fn cons_text(cons: &[Con]) -> String {
     t.join(" ")
 }
 
+fn split_size(cons: &[Con]) -> Vec<Con> {
+    fn sz(a: &Atom) -> Atom {
+        Atom::Size(Box::new(Con { root: ESet { all_except: None, unions: vec![vec![IElem { atom: a.clone(), except: None }]], words: false }, ext: false, add: None }))
+    }
+    fn eset(e: &ESet) -> ESet {
+        ESet {
+            all_except: e.all_except.as_ref().map(sz),
+            unions: e.unions.iter().map(|i| i.iter().map(|x| IElem { atom: sz(&x.atom), except: x.except.as_ref().map(sz) }).collect()).collect(),
+            words: e.words,
+        }
+    }
+    cons.iter().map(|c| Con { root: eset(&c.root), ext: c.ext, add: c.add.as_ref().map(eset) }).collect()
+}
+
 fn wrap_size(cons: &[Con], outer_marker: bool) -> Vec<Con> {
     cons.iter()
         .map(|c| {
@@ -217,13 +238,21 @@ fn spell_refs(cons: &[Con], prefix: &str) -> Vec<Con> {
         .collect()
 }
 
+fn size_text(c: &Case) -> String {
+    if c.split_size {
+        cons_text(&split_size(&c.cons))
+    } else {
+        cons_text(&wrap_size(&c.cons, c.outer_marker))
+    }
+}
+
 fn case_text(i: usize, c: &Case) -> String {
     let (cons_s, base) = match c.host {
         Host::Integer => (cons_text(&c.cons), "INTEGER"),
-        Host::BitString => (cons_text(&wrap_size(&c.cons, c.outer_marker)), "BIT STRING"),
-        Host::OctetString => (cons_text(&wrap_size(&c.cons, c.outer_marker)), "OCTET STRING"),
-        Host::Ia5 => (cons_text(&wrap_size(&c.cons, c.outer_marker)), "IA5String"),
-        Host::SeqOf | Host::SetOf => (cons_text(&wrap_size(&c.cons, c.outer_marker)), ""),
+        Host::BitString => (size_text(c), "BIT STRING"),
+        Host::OctetString => (size_text(c), "OCTET STRING"),
+        Host::Ia5 => (size_text(c), "IA5String"),
+        Host::SeqOf | Host::SetOf => (size_text(c), ""),
     };
     let ty = match (c.host, c.place) {
         (Host::SeqOf, _) => format!("SEQUENCE {cons_s} OF BOOLEAN"),
@@ -231,14 +260,14 @@ fn case_text(i: usize, c: &Case) -> String {
         (Host::Integer, Place::OnParent) => format!("Parent-Int {cons_s}"),
         (Host::Integer, Place::ValueRefs) => format!("INTEGER {}", cons_text(&spell_refs(&c.cons, "v"))),
         (Host::Integer, Place::NamedViaRef) => format!("Nn-Parent {}", cons_text(&spell_refs(&c.cons, "n"))),
-        (Host::Integer, Place::NamedNumbers) => format!(
+        (Host::Integer, Place::NamedNumbers | Place::NamedOnComponent) => format!(
             "INTEGER {{ nm1(-1), n0(0), n1(1), n5(5), n300(300) }} {}",
             cons_text(&spell_refs(&c.cons, "n"))
         ),
         _ => format!("{base} {cons_s}"),
     };
     match c.place {
-        Place::Component => format!("T{i} ::= SEQUENCE {{ f {ty} }}"),
+        Place::Component | Place::NamedOnComponent => format!("T{i} ::= SEQUENCE {{ f {ty} }}"),
         Place::OnParent if c.ref_component => format!("T{i} ::= SEQUENCE {{ f {ty} }}"),
         _ => format!("T{i} ::= {ty}"),
     }
@@ -318,7 +347,7 @@ fn observe(m: &RModule, i: usize, c: &Case) -> Result<Emitted, String> {
         }
     };
     match c.place {
-        Place::Component => {
+        Place::Component | Place::NamedOnComponent => {
             let f = s.fields.first().ok_or("no field")?;
             from_attrs(&f.attrs)
         }
@@ -696,7 +725,7 @@ fn classify(c: &Case, _r: &rcon::Effective, e: &Emitted, clause: &str) -> Option
 
 fn nontrivial(c: &Case) -> bool {
     let ops: usize = c.cons.iter().map(|k| k.root.unions.iter().map(|u| u.iter().map(|x| 1 + x.except.is_some() as usize).sum::<usize>()).sum::<usize>()).sum();
-    ops >= 2 || c.cons.len() >= 2 || matches!(c.place, Place::ValueRefs | Place::NamedNumbers | Place::NamedViaRef | Place::OnParent)
+    ops >= 2 || c.cons.len() >= 2 || matches!(c.place, Place::ValueRefs | Place::NamedNumbers | Place::NamedViaRef | Place::NamedOnComponent | Place::OnParent)
 }
 
 fn run_cases(ctx: &mut Ctx, cases: Vec<Case>, stats: &mut std::collections::BTreeMap<String, (u64, Vec<String>)>) {
@@ -752,8 +781,14 @@ fn run_cases(ctx: &mut Ctx, cases: Vec<Case>, stats: &mut std::collections::BTre
                         }
                         Err(why) => {
                             ctx.case(&line, nontrivial(&case));
+                            if case.split_size {
+                                ctx.class("size-elements-joined-by-set-operators");
+                            }
+                            // F-size-setop-kind: SIZE elements joined by a set operator come out as a *value* annotation
+                            let has_op = case.cons.iter().any(|k| k.root.all_except.is_some() || k.root.unions.len() > 1 || k.root.unions.iter().any(|u| u.len() > 1 || u.iter().any(|x| x.except.is_some())));
+                            let fid = if case.split_size && has_op && why.contains("unexpected value annotation") { Some("F-size-setop-kind") } else { None };
                             ctx.fail(Failure {
-                                finding: None,
+                                finding: fid,
                                 what: format!("cannot observe {line}: {why}"),
                                 replay: case_payload(&case, &line, &why),
                             });
@@ -768,6 +803,9 @@ fn run_cases(ctx: &mut Ctx, cases: Vec<Case>, stats: &mut std::collections::BTre
                             ctx.class(&format!("place:{:?}", case.place));
                             if has_contained(&case) {
                                 ctx.class("contained-subtype-operand");
+                            }
+                            if case.split_size {
+                                ctx.class("size-elements-joined-by-set-operators");
                             }
                             if let Some((clause, detail)) = judge(&case, &r, &e) {
                                 let sig = format!("{clause} | {:?} | {}", case.place, case.cons.iter().map(|k| shape(&k.root)).collect::<Vec<_>>().join(" )( "));
@@ -825,13 +863,17 @@ fn random_case(src: &mut Src) -> Case {
         cons.push(Con { root: ESet { all_except: None, unions, words: src.chance(20) }, ext: src.chance(25), add: None });
     }
     let place = if host == Host::Integer {
-        [Place::Assignment, Place::Component, Place::OnParent, Place::ValueRefs, Place::NamedNumbers, Place::NamedViaRef][src.pick(6)]
+        [Place::Assignment, Place::Component, Place::OnParent, Place::ValueRefs, Place::NamedNumbers, Place::NamedViaRef, Place::NamedOnComponent][src.pick(7)]
     } else {
         [Place::Assignment, Place::Component][src.pick(2)]
     };
     let outer_marker = host != Host::Integer && src.chance(30);
     let ref_component = place == Place::OnParent && src.chance(50);
-    Case { host, place, cons, outer_marker, ref_component }
+    // (SIZE elements of their own only in expressions with at most one operator: what larger
+    // ones do is the listed finding F-size-setop-kind tangled with F-prec)
+    let n_ops: usize = cons.iter().map(|k: &Con| k.root.unions.iter().map(|u| u.iter().map(|x| 1 + x.except.is_some() as usize).sum::<usize>()).sum::<usize>()).sum();
+    let split_size = host != Host::Integer && !outer_marker && cons.len() == 1 && n_ops <= 2 && src.chance(40);
+    Case { host, place, cons, outer_marker, ref_component, split_size }
 }
 
 pub fn run(tier: Tier, seed: u64, replay: Option<String>) -> i32 {
@@ -875,7 +917,7 @@ pub fn run(tier: Tier, seed: u64, replay: Option<String>) -> i32 {
                     if n == 3 && place == Place::Component {
                         continue;
                     }
-                    cases.push(Case { host: Host::Integer, place, cons: vec![with_ext(e.clone(), ext)], outer_marker: false, ref_component: false });
+                    cases.push(Case { host: Host::Integer, place, cons: vec![with_ext(e.clone(), ext)], outer_marker: false, ref_component: false, split_size: false });
                 }
             }
         }
@@ -888,9 +930,12 @@ pub fn run(tier: Tier, seed: u64, replay: Option<String>) -> i32 {
                         if n == 2 && tier == Tier::Quick && !(host == Host::OctetString || host == Host::SeqOf) {
                             continue;
                         }
-                        cases.push(Case { host, place, cons: vec![with_ext(e.clone(), ext)], outer_marker: false, ref_component: false });
+                        cases.push(Case { host, place, cons: vec![with_ext(e.clone(), ext)], outer_marker: false, ref_component: false, split_size: false });
+                        if n == 2 && (host == Host::OctetString || host == Host::SeqOf) {
+                            cases.push(Case { host, place, cons: vec![with_ext(e.clone(), ext)], outer_marker: false, ref_component: false, split_size: true });
+                        }
                         if ext {
-                            cases.push(Case { host, place, cons: vec![with_ext(e.clone(), ext)], outer_marker: true, ref_component: false });
+                            cases.push(Case { host, place, cons: vec![with_ext(e.clone(), ext)], outer_marker: true, ref_component: false, split_size: false });
                         }
                     }
                 }
@@ -902,7 +947,7 @@ pub fn run(tier: Tier, seed: u64, replay: Option<String>) -> i32 {
     for a in &ones {
         for b in &ones {
             for (ea, eb) in [(false, false), (true, false), (false, true)] {
-                cases.push(Case { host: Host::Integer, place: Place::Assignment, cons: vec![with_ext(a.clone(), ea), with_ext(b.clone(), eb)], outer_marker: false, ref_component: false });
+                cases.push(Case { host: Host::Integer, place: Place::Assignment, cons: vec![with_ext(a.clone(), ea), with_ext(b.clone(), eb)], outer_marker: false, ref_component: false, split_size: false });
             }
         }
     }
@@ -911,10 +956,10 @@ pub fn run(tier: Tier, seed: u64, replay: Option<String>) -> i32 {
             if n == 2 && tier == Tier::Quick && k % 5 != 0 {
                 continue;
             }
-            for place in [Place::OnParent, Place::ValueRefs, Place::NamedNumbers, Place::NamedViaRef] {
-                cases.push(Case { host: Host::Integer, place, cons: vec![with_ext(e.clone(), false)], outer_marker: false, ref_component: false });
+            for place in [Place::OnParent, Place::ValueRefs, Place::NamedNumbers, Place::NamedViaRef, Place::NamedOnComponent] {
+                cases.push(Case { host: Host::Integer, place, cons: vec![with_ext(e.clone(), false)], outer_marker: false, ref_component: false, split_size: false });
             }
-            cases.push(Case { host: Host::Integer, place: Place::OnParent, cons: vec![with_ext(e.clone(), false)], outer_marker: false, ref_component: true });
+            cases.push(Case { host: Host::Integer, place: Place::OnParent, cons: vec![with_ext(e.clone(), false)], outer_marker: false, ref_component: true, split_size: false });
         }
     }
     ctx.extra.insert("exhaustive_cases".into(), json!(cases.len()));
